@@ -75,6 +75,21 @@ impl Instance {
         // the number of timer readings consumed is observable by the owner of the timer
         format!("{} @{}", text, g.jitter().map(|j| j.reads()).unwrap_or(0))
     }
+    /// construct the instance; a constructor that panics (C14's subject) must not kill the thread
+    /// that runs the scenario: the same stand-in generator is used wherever this happens, so solo
+    /// and interleaved runs stay comparable
+    pub fn build_safe(&self) -> Box<dyn Gen> {
+        match std::panic::catch_unwind(std::panic::AssertUnwindSafe(|| self.spec.build())) {
+            Ok(g) => g,
+            Err(_) => {
+                let _ = crate::engine::take_last_panic();
+                match &self.spec {
+                    GenSpec::Det { ty, .. } => crate::adapter::from_seed(*ty, &vec![0x55u8; ty.info().seed_len]),
+                    GenSpec::Jitter { .. } => crate::adapter::jitter_gen(crate::timer::Script::new(vec![1_000], 7), Some(1), crate::ops::JITTER_BUDGET),
+                }
+            }
+        }
+    }
     fn trace(&self, g: &mut dyn Gen) -> Vec<String> {
         (0..self.n_ops()).map(|k| self.step(g, k)).collect()
     }
@@ -96,7 +111,7 @@ pub struct FreeCase {
 }
 
 fn solo_here(inst: &Instance) -> Vec<String> {
-    let mut g = inst.spec.build();
+    let mut g = inst.build_safe();
     inst.trace(&mut *g)
 }
 
@@ -137,7 +152,7 @@ pub fn scenario_fresh_process(insts: &[Instance]) -> Result<Vec<Vec<String>>, St
 
 fn round_robin(insts: &[Instance]) -> Vec<Vec<String>> {
     let k = insts.len();
-    let mut gens: Vec<Box<dyn Gen>> = insts.iter().map(|i| i.spec.build()).collect();
+    let mut gens: Vec<Box<dyn Gen>> = insts.iter().map(|i| i.build_safe()).collect();
     let mut traces: Vec<Vec<String>> = vec![Vec::new(); k];
     let longest = insts.iter().map(|i| i.n_ops()).max().unwrap_or(0);
     for step in 0..longest {
@@ -164,7 +179,7 @@ pub fn solo_trace_main() {
     use std::io::Read;
     std::io::stdin().read_to_string(&mut text).expect("stdin");
     let inst: Instance = serde_json::from_str(&text).expect("instance json");
-    let mut g = inst.spec.build();
+    let mut g = inst.build_safe();
     let tr: Vec<String> = inst.trace(&mut *g);
     println!("{}", serde_json::to_string(&tr).unwrap());
 }
@@ -213,7 +228,7 @@ pub fn check_scenario(c: &Scenario) -> CheckResult {
                     Job::Stop => break,
                     Job::Step(i, g, inst, kth) => {
                         // construction is part of the history: built on the thread of its first op
-                        let mut g = g.unwrap_or_else(|| SendBox(inst.spec.build()));
+                        let mut g = g.unwrap_or_else(|| SendBox(inst.build_safe()));
                         let v = inst.step(&mut *g.0, kth);
                         if res_tx.send((i, g, v)).is_err() {
                             break;
@@ -234,7 +249,8 @@ pub fn check_scenario(c: &Scenario) -> CheckResult {
     let mut run_step = |i: usize, w: usize, gens: &mut Vec<Option<SendBox>>, built: &mut Vec<bool>, pos: &mut Vec<usize>, traces: &mut Vec<Vec<String>>| -> Result<(), Fail> {
         let g = if built[i] { gens[i].take() } else { None };
         job_txs[w].send(Job::Step(i, g, c.instances[i].clone(), pos[i])).map_err(|_| Fail::inconclusive("C19:worker", "worker thread died"))?;
-        let (ri, g, v) = res_rx.recv().map_err(|_| Fail::inconclusive("C19:worker", "worker thread died (panic in an operation?)"))?;
+        // never wait forever for a worker (a dead worker cannot answer)
+        let (ri, g, v) = res_rx.recv_timeout(std::time::Duration::from_secs(120)).map_err(|_| Fail::inconclusive("C19:worker", "worker thread did not answer within 120 s (died in an operation?)"))?;
         gens[ri] = Some(g);
         built[ri] = true;
         traces[ri].push(v);
@@ -318,7 +334,7 @@ pub fn check_free(c: &FreeCase) -> CheckResult {
             let barrier = barrier.clone();
             hs.push(std::thread::spawn(move || {
                 barrier.wait();
-                let mut gens: Vec<Box<dyn Gen>> = mine.iter().map(|(_, inst)| inst.spec.build()).collect();
+                let mut gens: Vec<Box<dyn Gen>> = mine.iter().map(|(_, inst)| inst.build_safe()).collect();
                 let mut traces: Vec<Vec<String>> = vec![Vec::new(); mine.len()];
                 let longest = mine.iter().map(|(_, i)| i.n_ops()).max().unwrap_or(0);
                 for step in 0..longest {
@@ -344,6 +360,18 @@ pub fn check_free(c: &FreeCase) -> CheckResult {
     Ok(CaseInfo::new(k >= 2 && m >= 2).class(format!("workers:{}", m)))
 }
 
+/// first outputs of a freshly constructed generator; a panic in the constructor or in an output
+/// call (C14's subject) is part of the observable behaviour that is compared, not a C19 finding
+fn obs(f: impl FnOnce() -> Box<dyn Gen>) -> Result<[u64; 3], String> {
+    match std::panic::catch_unwind(std::panic::AssertUnwindSafe(|| {
+        let mut g = f();
+        [g.next_native(), g.next_native(), g.next_native()]
+    })) {
+        Ok(v) => Ok(v),
+        Err(_) => Err(format!("<panic: {}>", crate::engine::panic_signature(&crate::engine::take_last_panic().unwrap_or_default()))),
+    }
+}
+
 /// Seeds that differ in exactly one or two bits, constructed back to back: a generator built
 /// right after a near-identical one must be the generator it is when built after an unrelated
 /// one. (Any process-wide cache keyed on a lossy *linear* digest of the seed collides on some
@@ -363,17 +391,16 @@ pub fn check_seed_pair(c: &SeedPairCase) -> CheckResult {
         s2[c.j / 8] ^= 1 << (c.j % 8);
     }
     let unrelated: Vec<u8> = c.base.bytes.iter().map(|b| !b ^ 0x5a).collect();
-    let take = |g: &mut dyn Gen| -> [u64; 3] { [g.next_native(), g.next_native(), g.next_native()] };
     // references: each seed's generator built right after an unrelated one
-    let _u = crate::adapter::from_seed(c.ty, &unrelated);
-    let want_a = take(&mut *crate::adapter::from_seed(c.ty, &c.base.bytes));
-    let _u2 = crate::adapter::from_seed(c.ty, &unrelated);
-    let want_b = take(&mut *crate::adapter::from_seed(c.ty, &s2));
+    let _u = obs(|| crate::adapter::from_seed(c.ty, &unrelated));
+    let want_a = obs(|| crate::adapter::from_seed(c.ty, &c.base.bytes));
+    let _u2 = obs(|| crate::adapter::from_seed(c.ty, &unrelated));
+    let want_b = obs(|| crate::adapter::from_seed(c.ty, &s2));
     // back to back in both orders: a after (the reference instance of) b, b after a, a after b
-    let got_a1 = take(&mut *crate::adapter::from_seed(c.ty, &c.base.bytes));
-    let got_b = take(&mut *crate::adapter::from_seed(c.ty, &s2));
-    let got_a2 = take(&mut *crate::adapter::from_seed(c.ty, &c.base.bytes));
-    for (what, want, got) in [("the base seed, built after the near-identical one", want_a, got_a1), ("the near-identical seed, built after the base one", want_b, got_b), ("the base seed, built again", want_a, got_a2)] {
+    let got_a1 = obs(|| crate::adapter::from_seed(c.ty, &c.base.bytes));
+    let got_b = obs(|| crate::adapter::from_seed(c.ty, &s2));
+    let got_a2 = obs(|| crate::adapter::from_seed(c.ty, &c.base.bytes));
+    for (what, want, got) in [("the base seed, built after the near-identical one", want_a.clone(), got_a1), ("the near-identical seed, built after the base one", want_b, got_b), ("the base seed, built again", want_a, got_a2)] {
         if got != want {
             return Err(Fail::new(format!("C19:depends-on-previous-instance:{}", c.ty.name()), format!("two seeds differing only in bit(s) {} / {}: the generator of {} returns other values than when built after an unrelated generator", c.i, c.j, what)).exp_act(format!("{:x?}", want), format!("{:x?}", got)));
         }
@@ -410,21 +437,20 @@ pub fn check_ctor_pair(c: &CtorPairCase) -> CheckResult {
     };
     let unrelated: Vec<u8> = seed.iter().map(|b| !b ^ 0x5a).collect();
     let ux = !c.x ^ 0x5a5a_5a5a;
-    let take = |g: &mut dyn Gen| -> [u64; 3] { [g.next_native(), g.next_native(), g.next_native()] };
     // references: each route's generator built right after an unrelated one of the same route
-    let _u = build(c.first, &unrelated, ux);
-    let _u1 = build(c.second, &unrelated, ux);
-    let want_a = take(&mut *build(c.first, &seed, c.x));
-    let _u2 = build(c.first, &unrelated, ux);
-    let _u3 = build(c.second, &unrelated, ux);
-    let want_b = take(&mut *build(c.second, &seed, c.x));
-    let _u4 = build(c.second, &unrelated, ux);
+    let _u = obs(|| build(c.first, &unrelated, ux));
+    let _u1 = obs(|| build(c.second, &unrelated, ux));
+    let want_a = obs(|| build(c.first, &seed, c.x));
+    let _u2 = obs(|| build(c.first, &unrelated, ux));
+    let _u3 = obs(|| build(c.second, &unrelated, ux));
+    let want_b = obs(|| build(c.second, &seed, c.x));
+    let _u4 = obs(|| build(c.second, &unrelated, ux));
     // back to back: a, then b, then a again
-    let got_a1 = take(&mut *build(c.first, &seed, c.x));
-    let got_b = take(&mut *build(c.second, &seed, c.x));
-    let got_a2 = take(&mut *build(c.first, &seed, c.x));
+    let got_a1 = obs(|| build(c.first, &seed, c.x));
+    let got_b = obs(|| build(c.second, &seed, c.x));
+    let got_a2 = obs(|| build(c.first, &seed, c.x));
     let names = ["from_seed", "seed_from_u64", "from_rng"];
-    for (what, want, got) in [("first route, built after an unrelated instance", want_a, got_a1), ("second route, built right after the first", want_b, got_b), ("first route, built right after the second", want_a, got_a2)] {
+    for (what, want, got) in [("first route, built after an unrelated instance", want_a.clone(), got_a1), ("second route, built right after the first", want_b, got_b), ("first route, built right after the second", want_a, got_a2)] {
         if got != want {
             return Err(Fail::new(format!("C19:depends-on-previous-instance:{}", c.ty.name()), format!("the same key material given to {} and then to {}: the generator of the {} returns other values than when built after unrelated generators", names[(c.first % 3) as usize], names[(c.second % 3) as usize], what)).exp_act(format!("{:x?}", want), format!("{:x?}", got)));
         }
@@ -466,21 +492,123 @@ pub fn check_cross_type(c: &CrossTypeCase) -> CheckResult {
         }
     };
     let ux = !c.x ^ 0x5a5a_5a5a;
-    let take = |g: &mut dyn Gen| -> [u64; 3] { [g.next_native(), g.next_native(), g.next_native()] };
-    let _u = build(c.a, ux);
-    let want_a = take(&mut *build(c.a, c.x));
-    let _u2 = build(c.b, ux);
-    let want_b = take(&mut *build(c.b, c.x));
-    let _u3 = build(c.b, ux);
-    let got_a1 = take(&mut *build(c.a, c.x));
-    let got_b = take(&mut *build(c.b, c.x));
-    let got_a2 = take(&mut *build(c.a, c.x));
-    for (what, ty, want, got) in [("first type, built after an unrelated instance", c.a, want_a, got_a1), ("second type, built right after the first", c.b, want_b, got_b), ("first type, built right after the second", c.a, want_a, got_a2)] {
+    let _u = obs(|| build(c.a, ux));
+    let want_a = obs(|| build(c.a, c.x));
+    let _u2 = obs(|| build(c.b, ux));
+    let want_b = obs(|| build(c.b, c.x));
+    let _u3 = obs(|| build(c.b, ux));
+    let got_a1 = obs(|| build(c.a, c.x));
+    let got_b = obs(|| build(c.b, c.x));
+    let got_a2 = obs(|| build(c.a, c.x));
+    for (what, ty, want, got) in [("first type, built after an unrelated instance", c.a, want_a.clone(), got_a1), ("second type, built right after the first", c.b, want_b, got_b), ("first type, built right after the second", c.a, want_a, got_a2)] {
         if got != want {
             return Err(Fail::new(format!("C19:depends-on-previous-instance:{}", ty.name()), format!("the same value given to {} of {} and then of {}: the generator of the {} returns other values than when built after unrelated generators", if c.route % 2 == 0 { "seed_from_u64" } else { "from_seed" }, c.a.name(), c.b.name(), what)).exp_act(format!("{:x?}", want), format!("{:x?}", got)));
         }
     }
     Ok(CaseInfo::new(c.a != c.b).class(if c.route % 2 == 0 { "seed_from_u64" } else { "from_seed" }).class_if(c.a.info().seed_len != c.b.info().seed_len, "different-seed-lengths"))
+}
+
+/// a source that, half-way through delivering the bytes of one `fill_bytes` call, constructs
+/// another generator of type `ty` from another source (an instance created and used *inside* an
+/// operation of the first one — the tightest interleaving a single thread can produce)
+struct ReentrantSrc {
+    inner: crate::src::ByteSrc,
+    ty: Ty,
+    nested_salt: u64,
+    nested: usize,
+}
+
+impl rand_core::RngCore for ReentrantSrc {
+    fn next_u32(&mut self) -> u32 {
+        self.inner.next_u32()
+    }
+    fn next_u64(&mut self) -> u64 {
+        self.inner.next_u64()
+    }
+    fn fill_bytes(&mut self, dest: &mut [u8]) {
+        let half = dest.len() / 2;
+        let (a, b) = dest.split_at_mut(half);
+        self.inner.fill_bytes(a);
+        if self.nested < 2 {
+            self.nested += 1;
+            let mut other = crate::src::ByteSrc::new(crate::src::SrcSpec { prefix: vec![0x33; 7], salt: self.nested_salt, words_differ: false });
+            let mut g = crate::adapter::from_rng(self.ty, &mut other);
+            let _ = g.next_native();
+        }
+        self.inner.fill_bytes(b);
+    }
+}
+
+#[derive(Clone, Debug, Serialize, Deserialize)]
+pub struct NestedCase {
+    pub ty: Ty,
+    pub spec: crate::src::SrcSpec,
+    pub nested_salt: u64,
+}
+
+/// from_rng over a source that constructs and uses another instance of the same type in the
+/// middle of delivering the seed bytes must give the generator that the plain source gives
+pub fn check_nested(c: &NestedCase) -> CheckResult {
+    let want = obs(|| crate::adapter::from_rng(c.ty, &mut crate::src::ByteSrc::new(c.spec.clone())));
+    let mut src = ReentrantSrc { inner: crate::src::ByteSrc::new(c.spec.clone()), ty: c.ty, nested_salt: c.nested_salt, nested: 0 };
+    let got = obs(|| crate::adapter::from_rng(c.ty, &mut src));
+    if got != want {
+        return Err(Fail::new(format!("C19:depends-on-nested-instance:{}", c.ty.name()), "from_rng over a source that creates another instance of the same type while delivering the seed bytes returns another generator than over the plain source delivering the same bytes (construction uses storage shared between instances)").exp_act(format!("{:x?}", want), format!("{:x?}", got)));
+    }
+    Ok(CaseInfo::new(src.nested > 0).class_if(src.nested > 0, "nested-construction-happened"))
+}
+
+/// many threads constructing generators of one type at the same moment (from_seed, seed_from_u64,
+/// from_rng over private sources), repeatedly; every generator must be the one the same
+/// construction gives when nothing else runs
+#[derive(Clone, Debug, Serialize, Deserialize)]
+pub struct ParCtorCase {
+    pub ty: Ty,
+    pub threads: usize,
+    pub per_thread: usize,
+    pub salt: u64,
+    pub route: u8,
+}
+
+pub fn check_par_ctor(c: &ParCtorCase) -> CheckResult {
+    let ty = c.ty;
+    let len = ty.info().seed_len;
+    let route = c.route;
+    let build = move |t: usize, k: usize, salt: u64| -> Result<[u64; 2], String> {
+        let key = salt ^ ((t as u64) << 32) ^ k as u64;
+        let spec = crate::src::SrcSpec { prefix: Vec::new(), salt: key, words_differ: false };
+        // a panicking constructor (C14's subject) is behaviour to compare, not a C19 finding
+        std::panic::catch_unwind(std::panic::AssertUnwindSafe(|| {
+            let mut g = match (route as usize + k) % 3 {
+                0 => crate::adapter::from_rng(ty, &mut crate::src::ByteSrc::new(spec.clone())),
+                1 => crate::adapter::from_seed(ty, &spec.bytes(0, len)),
+                _ => crate::adapter::seed_from_u64(ty, key),
+            };
+            [g.next_native(), g.next_native()]
+        }))
+        .map_err(|_| format!("<panic: {}>", crate::engine::panic_signature(&crate::engine::take_last_panic().unwrap_or_default())))
+    };
+    let (m, n) = (c.threads.clamp(2, 8), c.per_thread.clamp(1, 64));
+    let want: Vec<Vec<Result<[u64; 2], String>>> = (0..m).map(|t| (0..n).map(|k| build(t, k, c.salt)).collect()).collect();
+    let barrier = std::sync::Arc::new(std::sync::Barrier::new(m));
+    let hs: Vec<_> = (0..m)
+        .map(|t| {
+            let barrier = barrier.clone();
+            let salt = c.salt;
+            std::thread::spawn(move || {
+                barrier.wait();
+                (0..n).map(|k| build(t, k, salt)).collect::<Vec<_>>()
+            })
+        })
+        .collect();
+    for (t, h) in hs.into_iter().enumerate() {
+        let got = h.join().map_err(|_| Fail::new("C19:panic-in-thread", "a constructor panicked in a worker thread"))?;
+        if got != want[t] {
+            let k = got.iter().zip(want[t].iter()).position(|(a, b)| a != b).unwrap_or(0);
+            return Err(Fail::new(format!("C19:parallel-construction:{}", ty.name()), format!("generator #{} constructed on thread {} while {} other threads were constructing generators of the same type differs from the same construction made alone", k, t, m - 1)).exp_act(format!("{:x?}", want[t].get(k)), format!("{:x?}", got.get(k))));
+        }
+    }
+    Ok(CaseInfo::new(true).class(format!("threads:{}", m)))
 }
 
 /// static part: compile the Send/Sync probe against the current tree
@@ -719,6 +847,21 @@ pub fn def(ctx: &Ctx) -> PropDef {
                 check_ctor_pair,
             ));
         }
+        for ty in Ty::ALL {
+            let len = ty.info().seed_len;
+            subs.push(PSub::boxed(
+                format!("nested-construction/{}", ty.name()),
+                t.pick(100, 10_000),
+                move || (gens::src_spec(len, 1), any::<u64>()).prop_map(move |(spec, nested_salt)| NestedCase { ty, spec, nested_salt }).boxed(),
+                check_nested,
+            ));
+            subs.push(PSub::boxed(
+                format!("parallel-construction/{}", ty.name()),
+                t.pick(6, 200),
+                move || (2usize..=8, 8usize..=48, any::<u64>(), 0u8..3).prop_map(move |(threads, per_thread, salt, route)| ParCtorCase { ty, threads, per_thread, salt, route }).boxed(),
+                check_par_ctor,
+            ));
+        }
         subs.push(PSub::boxed(
             "ctor-cross-type",
             t.pick(6000, 600_000),
@@ -777,7 +920,7 @@ pub fn def(ctx: &Ctx) -> PropDef {
     }
     PropDef {
         id: "C19",
-        rule: "scenario = up to 6 generator instances (types drawn from the 19 deterministic types + scripted JitterRng, with deliberate repeats: identical twins, same seed with another history, same type with another seed; zero seeds; scripted JitterRng also with the round count new_with_timer starts with, after a real-clock JitterRng::new() earlier in the checker process; half of the JitterRng instances are driven through their whole public API (timer_stats, set_rounds, test_timer besides the output calls, with the number of timer readings consumed in the trace), a third of those on a timer that test_timer must reject; a dedicated fresh-process sub-check runs 2-4 such instances in one fresh child process against each alone in a fresh child process; construction is part of the history and happens on the scheduled thread) + a generated schedule of (instance, worker thread) pairs over 1..4 real OS threads: a coordinator hands the boxed generator and one operation to the scheduled worker and gets both back, so exactly one operation runs at a time and the interleaving, including migrations between threads, is the generated one. Oracle: every instance's trace equals its solo replay in a fresh thread, executed both before and after the interleaved run. Free-running mode: instances partitioned over 2..8 unsynchronised threads, repeated. Fresh-process mode: the traces of instances created and advanced round-robin inside the long-lived checker process (where thousands of other generators were created before) must equal the traces each instance produces alone in a freshly spawned child process, so process-wide lazily initialised state cannot hide; in half of these cases the whole scenario itself runs in a fresh child process of its own, so that its own construction order decides the initialisation order of anything process-wide (zero seeds are frequent here). Seed-pair enumeration: for one base seed per type and run, every seed that differs from it in exactly one or two bits (32 896 pairs for 32-byte seeds) is constructed right after the base seed\u{2019}s generator and must equal the same generator constructed after an unrelated one. Constructor pairs: the same key material (a 64-bit value in little-endian bytes, zero-padded or followed by generated bytes) handed back to back to two of from_seed / seed_from_u64 / from_rng, in both orders, against the same constructions made after unrelated instances. Cross-type pairs: the same 64-bit value (or the same leading seed bytes) handed to the same constructor route of two different generator types back to back. Static part: a probe crate asserting Send + Sync for every type is compiled against the current tree. Non-trivial = >= 2 instances of the same type advanced alternately and >= 1 thread migration; distinct by hash of the scenario.".into(),
+        rule: "scenario = up to 6 generator instances (types drawn from the 19 deterministic types + scripted JitterRng, with deliberate repeats: identical twins, same seed with another history, same type with another seed; zero seeds; scripted JitterRng also with the round count new_with_timer starts with, after a real-clock JitterRng::new() earlier in the checker process; half of the JitterRng instances are driven through their whole public API (timer_stats, set_rounds, test_timer besides the output calls, with the number of timer readings consumed in the trace), a third of those on a timer that test_timer must reject; a dedicated fresh-process sub-check runs 2-4 such instances in one fresh child process against each alone in a fresh child process; construction is part of the history and happens on the scheduled thread) + a generated schedule of (instance, worker thread) pairs over 1..4 real OS threads: a coordinator hands the boxed generator and one operation to the scheduled worker and gets both back, so exactly one operation runs at a time and the interleaving, including migrations between threads, is the generated one. Oracle: every instance's trace equals its solo replay in a fresh thread, executed both before and after the interleaved run. Free-running mode: instances partitioned over 2..8 unsynchronised threads, repeated. Fresh-process mode: the traces of instances created and advanced round-robin inside the long-lived checker process (where thousands of other generators were created before) must equal the traces each instance produces alone in a freshly spawned child process, so process-wide lazily initialised state cannot hide; in half of these cases the whole scenario itself runs in a fresh child process of its own, so that its own construction order decides the initialisation order of anything process-wide (zero seeds are frequent here). Seed-pair enumeration: for one base seed per type and run, every seed that differs from it in exactly one or two bits (32 896 pairs for 32-byte seeds) is constructed right after the base seed\u{2019}s generator and must equal the same generator constructed after an unrelated one. Constructor pairs: the same key material (a 64-bit value in little-endian bytes, zero-padded or followed by generated bytes) handed back to back to two of from_seed / seed_from_u64 / from_rng, in both orders, against the same constructions made after unrelated instances. Cross-type pairs: the same 64-bit value (or the same leading seed bytes) handed to the same constructor route of two different generator types back to back. Nested construction: from_rng over a source that creates and uses another instance of the same type half-way through delivering the seed bytes, against the plain source. Parallel construction: 2-8 threads constructing 8-48 generators of one type each at the same moment through all three routes, against the same constructions made alone. Static part: a probe crate asserting Send + Sync for every type is compiled against the current tree. Non-trivial = >= 2 instances of the same type advanced alternately and >= 1 thread migration; distinct by hash of the scenario.".into(),
         explanation: None,
         assumptions: vec![
             "interleavings inside one operation are not enumerated (the crates contain no synchronisation primitives to instrument)".into(),
